@@ -17,6 +17,9 @@ type Knobs struct {
 	Listeners int    `json:"listeners"`
 	Source    string `json:"source"` // direct | grb | reclone
 	Mode      string `json:"mode"`   // execute | fetch
+	// SplitAt > 0: the rule set is built from two resources (rules[:SplitAt], rules[SplitAt:]) by two
+	// BuildRuleFromResource calls instead of one.
+	SplitAt int `json:"split_at,omitempty"`
 }
 
 // Fault is one injected fault, positioned by the event number of the run.
